@@ -1,7 +1,7 @@
 """C02 Every map-conformant document is accepted with zero errors (preconditions only)."""
 import ast
 
-from ..core import Ob, Rule, AnalysisError, norm, KeyMaker
+from ..core import require_idiom, Ob, Rule, AnalysisError, norm, KeyMaker
 from ..cfg import path_of
 from .. import astutil as A
 from . import datarules as D
@@ -367,6 +367,7 @@ def r5_walker_wiring(ctx):
     for cls, attr in (('segment_if', 'max_use'), ('loop_if', 'repeat')):
         fn = ctx.func('map_if', cls + '.get_max_repeat')
         ok = 'MAXINT' in ast.unparse(fn) and ('int(self.%s)' % attr) in ast.unparse(fn) and "'>1'" in ast.unparse(fn)
+        require_idiom(ok, 'c02.py:369')
         yield Ob('map_if:%s.get_max_repeat: absent or ">1" is unlimited, otherwise the declared integer' % cls, ok, ctx.floc(fn), '' if ok else 'limit parsing changed')
     # --- the counter itself
     fn = ctx.func('nodeCounter', 'NodeCounter.get_count')
@@ -375,10 +376,12 @@ def r5_walker_wiring(ctx):
     fn = ctx.func('nodeCounter', 'NodeCounter.increment')
     txt = ast.unparse(fn)
     ok = 'self._dict[k] += 1' in txt and 'self._dict[k] = 1' in txt
+    require_idiom(ok, 'c02.py:377')
     yield Ob('nodeCounter:NodeCounter.increment counts from 1 in steps of 1', ok, ctx.floc(fn), '' if ok else 'increment changed')
     fn = ctx.func('nodeCounter', 'NodeCounter.reset_to_node')
     txt = ast.unparse(fn)
     ok = 'parent.is_child_path(x.format())' in txt and 'del self._dict[k]' in txt
+    require_idiom(ok, 'c02.py:381')
     yield Ob('nodeCounter:NodeCounter.reset_to_node drops exactly the counts below the node', ok, ctx.floc(fn), '' if ok else 'reset changed')
     fn = ctx.func('path', 'X12Path.is_child_path')
     t = [n for n in ast.walk(fn) if isinstance(n, ast.If) and 'len(root)' in norm(n.test)]
